@@ -108,7 +108,7 @@ pub fn eval_expect(expect: &Expect, rep: &RunReport, session: usize, stmt: usize
                         return Some(("type-mismatch".into(), format!("announced types: expected {ty:?}, got {:?}", t.types)));
                     }
                 }
-                if let Some(m) = &t.type_mismatch {
+                if let (Some(m), true) = (&t.type_mismatch, types.is_some()) {
                     return Some(("schema-mismatch".into(), m.clone()));
                 }
                 let exp = dec_rows(rows);
